@@ -11,12 +11,15 @@ fractions (independent of the model), and end-to-end through a one-evaluation `o
 """
 from __future__ import annotations
 
+import hashlib
 import itertools
 import json
+import re
 from fractions import Fraction as F
 
 from harness import core
 from harness.core import enc, rat, rats, lst
+from harness.props import _c09_translate as TR
 
 PROP = "C09"
 REQUIRED_THEOREMS = [
@@ -30,11 +33,21 @@ REQUIRED_THEOREMS = [
     "c02_injective_per_dataset_or_error", "c02_error_iff_some_dataset_merges",
     "c02_aligned_axis_strictly_increasing", "c02_assignment_total_unique",
     "c02_shares_clp_iff_same_aligned_point", "c02_every_column_once",
+    "generated_align_index_eq_model", "generated_create_aligned_global_axes_eq_model",
+    "generated_align_dataset_indices_eq_model", "generated_align_data_eq_model", "generated_align_groups_eq_model",
+    "generated_align_weights_eq_model", "generated_provider_eq_model", "stacked_weight_is_own_column",
+    "alignment_leaves_inputs_unchanged",
 ]
 TRUSTED = [
-    "hand-written model lean/GlotaranModel/C09.lean of glotaran/optimization/data_provider.py "
-    "(DataProviderLinked.align_index, create_aligned_global_axes, align_data, align_dataset_indices, "
-    "align_groups, align_weights), tied to the code by differential execution only",
+    "model lean/GlotaranModel/C09.lean of glotaran/optimization/data_provider.py (DataProviderLinked.align_index, "
+    "create_aligned_global_axes, align_data, align_dataset_indices, align_groups, align_weights): tied to the code by "
+    "regeneration - harness/props/_c09_translate.py translates the source text of these functions on every run into "
+    "lean/GlotaranModel/Generated/C09Fns.lean and the theorems generated_*_eq_model prove the translations equal to the model "
+    "definitions for all inputs - and by differential execution",
+    "the ast->Lean translator harness/props/_c09_translate.py with its signature table (which attributes a function reads and "
+    "their types) and the vocabulary lean/GlotaranModel/C09Py.lean (numpy on exact rationals: a-s, a>=s, a[mask], abs, min, "
+    "argmin = first minimum, unique; dicts = association lists in insertion order; KeyError and out-of-range reads are not "
+    "modelled; xarray: DataArray = values along 'global' with their coordinate, concat = outer join)",
     "xarray's outer-join concat: the joined coordinate is the sorted union of the members' coordinates and "
     "every member contributes exactly at its own coordinate values (modelled as alignedAxis/members; observed "
     "on every correspondence case)",
@@ -55,6 +68,15 @@ ASSUMPTIONS = [
     "dataset labels are such that concatenated group labels are unambiguous (d1, d2, …); substring/concatenation "
     "ambiguity of labels is C03's subject (hypothesis GroupLabelsUnambiguous of reported_under_original_coordinate)",
     "data and weights are finite (dropna is used by the code to remove the outer-join fill)",
+    "generated_*_eq_model: dict keys (dataset labels) pairwise different, labels not empty (the fill value of align_groups), "
+    "joined group labels unambiguous (align_weights looks group definitions up by them), every dataset has a data column per "
+    "aligned point; the signature table of the translator fixes which attributes of self / scheme a function reads",
+    "inputs unchanged: optimize() ADDS the variables data_left_singular_vectors / data_singular_values / "
+    "data_right_singular_vectors to the input datasets (OptimizationGroup.__init__, add_svd=True, by design) and result.data[label] "
+    "is a shallow copy sharing the data/weight arrays with the input; values, coordinates and dtypes of the existing variables "
+    "are what the digest compares (counted under inputs:variable-added-to-input-dataset-by-optimize)",
+    "alignment_leaves_inputs_unchanged is about the Store model (arrays are only appended); the link to the source is that the "
+    "translator refuses any store into an array the function did not create, and the digest / np.shares_memory observations",
 ]
 RULE = (
     "cases = (tolerance, method, ordered list of 2-4 datasets); a dataset's global axis is a subset of the grid "
@@ -75,8 +97,77 @@ RULE = (
     "repeated coordinates, where the accumulated axis of the two models used to differ) to the `axes` op of both drivers and "
     "to the real create_aligned_global_axes. Result stream: for every k-th accepted provider case the stacked residual "
     "of aligned point i is prescribed (1000 i + position), the real EstimationProviderLinked.get_result is compared with the "
-    "model's resultResidual and with the cut computed from the provider's API tables"
+    "model's resultResidual and with the cut computed from the provider's API tables. Regeneration: before the proofs are built "
+    "the six alignment functions are translated from the source text of VERIF_REPO (generate); a function outside the translated "
+    "subset becomes `untranslatable` and its generated_*_eq_model theorem fails. Array identity: every raw-axes case is also sent "
+    "to the model's `refs` op (create_aligned_global_axes on a store of arrays) and compared with the real function: which arrays "
+    "handed out ARE input arrays (identity / np.shares_memory), contents of the inputs afterwards, contents handed out. Inputs "
+    "stream (harness/props/_c09_extra.py): digest (dtype, shape, dims, bytes) of every variable and coordinate of every input "
+    "dataset before / after DataProviderLinked / after optimize() / after a second provider on the same scheme object, equal "
+    "tables of the two providers, result coordinates = own coordinates, int64 global axes linked to float axes (tables equal to "
+    "the all-float build, assignment allowed by the statement). Weighted stream: 2-3 datasets, some weighted with weights "
+    "2^((2j+i+d) mod 5 - 2) varying along the global axis, later datasets moved by +-1/4, +-1/2, tolerance 1/2 or 1, three "
+    "methods, both / three dataset orders: every member's segment of get_aligned_weight / get_aligned_data is its own weight "
+    "column / own weighted data column at its own index; clp, residual, weighted residual of optimize() against numpy lstsq of "
+    "exactly the assigned columns (rtol 1e-9)"
 )
+
+GEN_FILE = core.LEAN / "GlotaranModel" / "Generated" / "C09Fns.lean"
+
+
+def _lean_accepts(text):
+    """compile a candidate Generated/C09Fns.lean on the side: {function name: first error} for the functions Lean rejects
+    (a translator that emits ill-typed Lean must not take the whole check down)"""
+    scratch = core.LEAN / ".lake" / "scratch"
+    scratch.mkdir(parents=True, exist_ok=True)
+    f = scratch / "C09FnsCandidate.lean"
+    f.write_text(text)
+    try:
+        with core.lake_lock():
+            core._run(["lake", "build", "GlotaranModel.C09Py"], cwd=core.LEAN)
+        with core.lake_lock(shared=True):
+            rc, out, err = core._run(["lake", "env", "lean", str(f)], cwd=core.LEAN, timeout=600)
+    finally:
+        f.unlink(missing_ok=True)
+    if rc == 0:
+        return {}
+    lines = text.splitlines()
+    starts = [(i + 1, m.group(1)) for i, l in enumerate(lines) for m in [re.match(r"def (\w+) ", l)] if m]
+    bad = {}
+    for m in re.finditer(r":(\d+):\d+: error: ([^\n]*)", out + err):
+        ln = int(m.group(1))
+        owner = [name for start, name in starts if start <= ln]
+        if owner and owner[-1] not in bad:
+            bad[owner[-1]] = "Lean rejected the translation: " + m.group(2)[:120]
+    return bad or {name: "Lean rejected the generated file" for _, name in starts}
+
+
+def generate(ck):
+    """regenerate lean/GlotaranModel/Generated/C09Fns.lean (function-level translation of the alignment functions of
+    DataProviderLinked) from the source text of VERIF_REPO; written only when its content changes"""
+    text, table = TR.render(core.REPO)
+    GEN_FILE.parent.mkdir(parents=True, exist_ok=True)
+    if not GEN_FILE.exists() or GEN_FILE.read_text() != text:
+        reject = {}
+        for _ in range(3):
+            bad = _lean_accepts(text)
+            if not bad:
+                break
+            reject.update(bad)
+            text, table = TR.render(core.REPO, reject=reject)
+        if not GEN_FILE.exists() or GEN_FILE.read_text() != text:
+            GEN_FILE.write_text(text)
+    for row in table:
+        ck.count("generated:" + ("translated" if row["status"] == "translated" else "untranslatable"))
+    ck.extra["generated_functions"] = table
+    return [{
+        "table": "functions of lean/GlotaranModel/Generated/C09Fns.lean (ast -> Lean, harness/props/_c09_translate.py)",
+        "source": [TR.SRC_FILE],
+        "source_sha1": TR.source_sha1(core.REPO),
+        "sha1": hashlib.sha1(text.encode()).hexdigest(),
+        "functions": table,
+    }]
+
 
 METHODS = ["nearest", "backward", "forward"]
 TOLS = [F(0), F(1, 4), F(1, 2), F(1), F(3, 2)]
@@ -638,6 +729,33 @@ def real_axes(case):
     return "ok " + lst(rats([fr(v) for v in out[f"d{i + 1}"]]) for i in range(len(case["axes"])))
 
 
+def real_axes_refs(case):
+    """array identity on the real `create_aligned_global_axes` (stub provider): which of the arrays handed out ARE input arrays,
+    and whether every input array still has its contents.  Canonical form of the model's `refs` answer."""
+    import types
+    g = _glot()
+    np = g["np"]
+    ins = [np.array([float(F(x)) for x in ax], dtype=float) for ax in case["axes"]]
+    before = [a.tobytes() for a in ins]
+    stub = types.SimpleNamespace(_global_axes={f"d{i + 1}": a for i, a in enumerate(ins)}, align_index=g["DPL"].align_index)
+    scheme = types.SimpleNamespace(clp_link_tolerance=float(F(case["tol"])), clp_link_method=case["method"])
+    try:
+        out = g["DPL"].create_aligned_global_axes(stub, scheme)
+    except g["AlignDatasetError"]:
+        return "err AlignDataset" if [a.tobytes() for a in ins] == before else "err AlignDataset, inputs modified"
+    outs = [out[f"d{i + 1}"] for i in range(len(ins))]
+    refs, fresh = [], len(ins)
+    for o in outs:
+        hit = [k for k, a in enumerate(ins) if o is a or (isinstance(o, np.ndarray) and np.shares_memory(o, a))]
+        if hit:
+            refs.append(hit[0])
+        else:                      # a new object: the model numbers them n, n+2, n+4, … (its own np.unique arrays in between)
+            refs.append(fresh)
+            fresh += 2
+    return ("ok " + lst(str(r) for r in refs) + " " + lst(rats([fr(v) for v in a]) for a in ins)
+            + " " + lst(rats([fr(v) for v in o]) for o in outs))
+
+
 def axes_line(case):
     return f"axes {rat(F(case['tol']))} {case['method']} {lst(rats([F(x) for x in ax]) for ax in case['axes'])}"
 
@@ -663,8 +781,9 @@ def compare_axes(ck, cases, tag):
     lines = [axes_line(c) for c in cases]
     m09 = core.lean_driver(PROP, lines)
     m02 = core.lean_driver("C02", lines)
+    mrefs = core.lean_driver(PROP, ["refs" + l[len("axes"):] for l in lines])
     bad = 0
-    for case, a09, a02 in zip(cases, m09, m02):
+    for n, (case, a09, a02) in enumerate(zip(cases, m09, m02)):
         try:
             real = real_axes(case)
         except (AttributeError, TypeError):
@@ -675,6 +794,13 @@ def compare_axes(ck, cases, tag):
         ck.count(f"stream:{tag}")
         ck.count("axes:" + ("first-axis-unsorted-or-repeated" if unsorted_first else "first-axis-increasing"))
         ck.count("axes-outcome:" + real.split(" ")[0])
+        if mrefs is not None:
+            rr = real_axes_refs(case)
+            ck.count("refs:" + ("first-axis-is-the-input-array" if rr.startswith("ok [0") else rr.split(" ")[0]))
+            if rr != mrefs[n] and bad < 3:
+                bad += 1
+                ck.disagree("axes-array-identity", f"create_aligned_global_axes {case['axes']} tol={case['tol']} {case['method']}: arrays "
+                            f"handed out / inputs afterwards: implementation {rr}, model {mrefs[n]}", case)
         if not (real == a09 == a02):
             bad += 1
             if bad <= 3:
@@ -739,7 +865,11 @@ def oracle_result(ck, case, real):
     for i in range(len(axis)):
         off = 0
         for lab, j in zip(defs[labels[i]], idx[i]):
-            dn = num[lab]
+            dn = num.get(lab)
+            if dn is None or not 0 <= j < len(want[dn]):
+                ck.violation("aligned-dataset-index-out-of-range", f"get_aligned_dataset_indices({i}) = {idx[i]} for the group "
+                             f"{defs[labels[i]]}: dataset {lab} has no global index {j}", case)
+                return residuals, None
             want[dn][j] = residuals[i][off: off + dss[dn]["msize"]]
             off += dss[dn]["msize"]
     for dn, d in enumerate(dss):
@@ -1040,9 +1170,9 @@ def run(ck):
         rng.shuffle(space)
         space = space[:6000]
     compare_align(ck, space, "align-bounded")
-    compare_align(ck, [random_align(rng) for _ in range(ck.n(4000, 40000))], "align-random")
+    compare_align(ck, [random_align(rng) for _ in range(ck.n(3000, 40000))], "align-random")
     # create_aligned_global_axes on raw axes, also unsorted / repeated coordinates: both models and the real function
-    compare_axes(ck, [random_axes_case(rng) for _ in range(ck.n(3000, 30000))], "axes-three-way")
+    compare_axes(ck, [random_axes_case(rng) for _ in range(ck.n(2400, 30000))], "axes-three-way")
     # providers: bounded space
     if ck.quick:
         bounded = list(bounded_space(full=False))
@@ -1088,6 +1218,12 @@ def run(ck):
         else:
             ck.count("unsorted:skipped-identical-non-increasing-axes")
     compare_providers(ck, uns, "non-increasing-axes", e2e_every=ck.n(4, 12), result_every=1)
+    # inputs are never modified / second provider on the same scheme / results under original coordinates, integer axes
+    # linked to float axes; weighted linked groups: every stacked column carries its own weight (harness/props/_c09_extra.py)
+    from harness.props import _c09_extra as X
+    X.run_inputs_unchanged(ck, rng.sample(larger, min(len(larger), ck.n(40, 400))) + rng.sample(uns, min(len(uns), ck.n(12, 120))),
+                           "inputs-unchanged", max_optimize=ck.n(30, 300))
+    X.run_weighted(ck, ck.n(50, 600), "weighted-own-column", max_optimize=ck.n(40, 400))
     for c in (larger[:2] + [REGRESSION[0]]):
         ck.sample(c)
 
@@ -1116,6 +1252,11 @@ def search(ck):
             oracle_end_to_end(ck, c)
         if ck.violations:
             return
+    from harness.props import _c09_extra as X
+    X.run_inputs_unchanged(ck, [random_case(rng, rng.choice([2, 3]), 6, 5) for _ in range(ck.n(60, 600))], "search-inputs",
+                           max_optimize=ck.n(30, 300))
+    if not ck.violations:
+        X.run_weighted(ck, ck.n(80, 800), "search-weighted", max_optimize=ck.n(40, 400))
 
 
 def replay(ck, case):
@@ -1124,7 +1265,11 @@ def replay(ck, case):
         cases = [d["case"] for d in case["disagreements"]]
     else:
         cases = [case.get("case", case)]
+    from harness.props import _c09_extra as X
     for c in cases:
+        if X.is_extra_case(c):
+            X.replay_case(ck, c)
+            continue
         if c.get("kind") == "axes":
             print("create_aligned_global_axes on the real code:", real_axes(c))
         elif c.get("kind") == "align":
